@@ -877,6 +877,17 @@ def install(I):
         over = I.binop('Gt', s, I.mk_int(DUR_MAX_NANOS, 'u128'), st)
         return I.ret(st, dur(Sc(z3.If(over, I.mk_int(DUR_MAX_NANOS, 'u128').t, s.t), 'u128')))
 
+    @M(r'^(std::time::)?Duration::saturating_mul$', 'Duration::saturating_mul (u32 factor)')
+    def m_dur_satmul(I, st, f, args, fr):
+        a = dur_n(I, st, args[0])
+        k = args[1]
+        if I.mode == 'int':
+            p_ = Sc(a.t * k.t, 'u128')
+        else:
+            p_ = Sc(a.t * z3.ZeroExt(128 - k.t.size(), k.t), 'u128')      # < 2^94 * 2^32: no wrap in 128 bits
+        over = I.binop('Gt', p_, I.mk_int(DUR_MAX_NANOS, 'u128'), st)
+        return I.ret(st, dur(Sc(z3.If(over, I.mk_int(DUR_MAX_NANOS, 'u128').t, p_.t), 'u128')))
+
     @M(r'^(std::time::)?Duration::checked_(add|sub)$', 'Duration::checked_*')
     def m_dur_chk(I, st, f, args, fr):
         a, b = dur_n(I, st, args[0]), dur_n(I, st, args[1])
